@@ -321,7 +321,7 @@ def check_case(rec, spec, p_idx, kind, tol_idx, out_mode, out_idx,
 
 def shards(tier, seed):
     return [dict(kind='hyp', seed=seed * 1000 + k,
-                 n=10 if tier == 'quick' else 600) for k in range(16)]
+                 n=10 if tier == 'quick' else 400) for k in range(16)]
 
 
 def run_shard(shard, rec):
